@@ -24,6 +24,7 @@ ERRORS = {
     "bad-index": ("lda 0x10, q", 10, "scan"),
     "unterminated-string": (".ascii 'abc", 7, "scan"),
     "unterminated-string-db": ("  .db 'x", 6, "scan"),
+    "unterminated-string-ending-in-a-backslash": (".ascii 'C:\\", 7, "scan"),
 }
 
 
